@@ -278,6 +278,13 @@ void t_distformat(FuzzedDataProvider& f) {
   string s = f.ConsumeRemainingBytesAsString();
   // a class count with 5 or more digits is a legitimate request for a huge object, not a parsing problem: not generated
   { int run = 0; for (char ch : s) { run = isdigit(static_cast<unsigned char>(ch)) ? run + 1 : 0; if (run >= 5) { ++g_excluded; return; } } }
+  // ... and a class count 'n=' of 100 or more is a legitimate but expensive request (discretisation is quadratic in the class count when
+  // many class values coincide and have to be separated by steps of the map precision): not generated either
+  for (size_t q = s.find("n="); q != string::npos; q = s.find("n=", q + 1)) {
+    size_t d = q + 2; while (d < s.size() && (s[d] == ' ' || s[d] == '+')) ++d;
+    size_t e = d; while (e < s.size() && isdigit(static_cast<unsigned char>(s[e]))) ++e;
+    if (e - d >= 3) { ++g_excluded; return; }
+  }
   try {
     BppODiscreteDistributionFormat fmt(false);
     auto d = fmt.readDiscreteDistribution(s, parseArgs);
